@@ -50,7 +50,7 @@ def check(ctx, args):
     if okc:
         ctx.model_run("c18", cases, model)
         n, mism = lib.diff_lines(impl, model, cases, same)
-        ctx.oblige("correspondence: appendShellSafeQuote/formatArgs == K.ShellQuote.quote/format_args, K.Sh == /bin/sh (%d cases, extracted model)" % n,
+        ctx.oblige("correspondence: appendShellSafeQuote/formatArgs/jobScript == K.ShellQuote.quote/format_args, K.JobScript.replace_all; K.Sh == /bin/sh (%d cases, extracted model)" % n,
                    not mism, "; ".join("case %s impl=%s model=%s" % (m[1][:80], m[2][:80], m[3][:80]) for m in mism[:5] if m))
         # -- correspondence, kernel: a sample evaluated by vm_compute
         lines = list(zip(open(cases).read().splitlines(), open(impl).read().splitlines()))
@@ -87,7 +87,7 @@ def check(ctx, args):
         "evaluations": sum(kinds.values()),
         "distinct_nontrivial": lib.distinct_count(cases, lambda l: len(l) > 6),
         "rule": "all 1- and 2-byte strings (exhaustive), all strings over 30 shell-significant bytes up to length 3 (4 thorough), seeded random UTF-8 / raw byte strings, random command lines with environment; distinct by case text, non-trivial = at least 2 bytes",
-        "case_kinds": {"quote": kinds.get("q", 0), "command_lines": kinds.get("f", 0), "sh_model_words": kinds.get("d", 0)},
+        "case_kinds": {"quote": kinds.get("q", 0), "command_lines": kinds.get("f", 0), "job_scripts": kinds.get("j", 0), "sh_model_words": kinds.get("d", 0)},
         "oracle_ok": n_ok, "oracle_fail": n_fail,
         "exhaustive": False,
     })
